@@ -1,0 +1,9 @@
+// Copyright 2024 The Mellium Contributors.
+// Use of this source code is governed by the BSD 2-clause
+// license that can be found in the LICENSE file.
+
+//go:build !verif
+
+package ibb
+
+func verifYield(point, id string) {}
